@@ -6,6 +6,7 @@ from flumine.exceptions import FlumineException
 from flumine.markets.middleware import Middleware
 from flumine.order.order import OrderStatus
 from . import common as cm
+from . import lifecycle as lc
 from . import simstate as ss
 
 S = OrderStatus
@@ -206,10 +207,92 @@ def h13d(c, U=3):
     h07(_Only(c, ("executed-at-first-due-update", "never-due", "executed-at-most-once", "no-exception")), U=U, R=2)
 
 
+def _loop_world(c, spec, with_b, b_first, U):
+    """one FlumineSimulation run over U updates through the real _process_market_books (zero latency); returns what strategy A
+    observed (callbacks with their arguments' state) and the final state of its orders"""
+    names = (["B", "A"] if b_first else ["A", "B"]) if with_b else ["A"]
+    seen = []
+    box = {"k": 0}
+    orders = {"A": [], "B": []}
+
+    def mk_hooks(nm):
+        def pmb(strategy, market, market_book):
+            k = box["k"]
+            if nm == "A":
+                seen.append(("process_market_book", k, len(market.blotter.strategy_orders(strategy))))
+            plan = spec[nm]
+            if k == 0 and plan["action"] != "none":
+                o = cm.mk_limit(strategy, "BACK", 1.5 if plan["action"] == "cross" else 3.0, plan["size"], selection_id=plan["selection"])
+                if plan["action"] == "raise-inside-transaction":
+                    orders[nm].append(o)
+                    with market.transaction() as t:
+                        t.place_order(o)
+                        raise ValueError("strategy bug inside the transaction block")
+                market.place_order(o)
+                orders[nm].append(o)
+
+        def po(strategy, market, os_):
+            if nm == "A":
+                seen.append(("process_orders", box["k"], [(x.status.name, x.size_matched, x.size_remaining) for x in os_]))
+        return dict(process_market_book=pmb, process_orders=po)
+
+    fl, (client,), strategies = cm.new_sim(n_strategies=len(names), hooks=[mk_hooks(nm) for nm in names],
+                                           strategy_kwargs=dict(max_order_exposure=None, max_selection_exposure=None, max_live_trade_count=10))
+    with fl.simulated_datetime:
+        for k in range(U):
+            box["k"] = k
+            bk = cm.book([cm.runner(1, atb=[{"price": 2.0, "size": spec["atb"]}], atl=[{"price": 4.0, "size": 50.0}]),
+                          cm.runner(2, atb=[{"price": 2.0, "size": spec["atb"]}], atl=[{"price": 4.0, "size": 50.0}])], version=7, pt_ms=cm.T0_MS + 1000 * k)
+            fl._process_market_books(events.MarketBookEvent([bk]))
+    market = fl.markets.markets[cm.MID]
+    final = [(o.status.name if o.status else None, o.size_matched, o.size_remaining, o.bet_id is not None) for o in orders["A"]]
+    return dict(seen=seen, final=final, fl=fl, market=market, strategies=dict(zip(names, strategies)), orders=orders)
+
+
+def h13e(c, U=3):
+    """loop level, two worlds over the same symbolic run: strategy A alone and alongside a strategy B (both registration orders): what A
+    is told (every callback, its order of delivery, the order states it is shown) and what becomes of its orders is identical;
+    an exception raised inside a `with market.transaction()` block of a strategy is contained and leaves no order orphaned"""
+    with cm.config_set(simulated=True, place_latency=0.0, cancel_latency=0.0, raise_errors=False):
+        spec = {"atb": c.cents("atb_size", 1, 100000)}
+        spec["A"] = dict(action=c.choose("A_action", ["cross", "rest", "raise-inside-transaction", "none"]), size=c.cents("A_size", 200, 100000), selection=1)
+        spec["B"] = dict(action=c.choose("B_action", ["none", "rest", "cross", "raise-inside-transaction"]), size=c.cents("B_size", 200, 100000),
+                         selection=c.choose("B_selection", [1, 2]))
+        with c.guard("world-alone"):
+            alone = _loop_world(c, spec, False, False, U)
+        b_first = c.choose("b_registered_first", [False, True])
+        with c.guard("world-with-b"):
+            both = _loop_world(c, spec, True, b_first, U)
+        c.ob("A.callbacks-identical", len(alone["seen"]) == len(both["seen"]) and all(x[:2] == y[:2] for x, y in zip(alone["seen"], both["seen"])),
+             alone=str([x[:2] for x in alone["seen"]]), together=str([x[:2] for x in both["seen"]]))
+        if len(alone["seen"]) == len(both["seen"]):
+            for x, y in zip(alone["seen"], both["seen"]):
+                if x[0] == "process_orders" and len(x[2]) == len(y[2]):
+                    for (s1, m1, r1), (s2, m2, r2) in zip(x[2], y[2]):
+                        c.ob("A.update%d.orders-shown-identical" % x[1], c.And(s1 == s2, m1 == m2, r1 == r2))
+                else:
+                    c.ob("A.update%d.%s-argument-identical" % (x[1], x[0]), (len(x[2]) == len(y[2])) if x[0] == "process_orders" else x[2] == y[2])
+        c.ob("A.final-order-count-identical", len(alone["final"]) == len(both["final"]))
+        for (s1, m1, r1, b1), (s2, m2, r2, b2) in zip(alone["final"], both["final"]):
+            c.ob("A.final-order-state-identical", c.And(s1 == s2, m1 == m2, r1 == r2, b1 == b2))
+        # order state stays consistent after a contained exception: nothing accepted is left pending without a request in flight
+        for w, nm in ((alone, "alone"), (both, "together")):
+            inflight = [o for p in w["fl"].handler_queue for o in p._orders]
+            for o in w["market"].blotter:
+                c.ob("%s.no-orphaned-pending-order" % nm, not (o.status == S.PENDING and not any(x is o for x in inflight)), strategy=o.trade.strategy.name)
+            for st in w["strategies"].values():
+                lc.recount_runner_context(c, st, w["market"], tag=nm)
+        if spec["A"]["action"] == "raise-inside-transaction" or spec["B"]["action"] == "raise-inside-transaction":
+            c.cover("exception-in-transaction-block")
+        c.cover("worlds")
+
+
 OUT = ["strategies sharing mutable Python state by other means", "more than 2 orders per strategy / 2 traded levels (H13a)", "more than U updates x 3 strategies (H13b)"]
 HARNESSES = [
     Harness("H13a", h13a, quick=dict(na=1, nb=1), thorough=dict(na=2, nb=2), pattern="P4 relational (two worlds, same symbolic inputs)", requires=["worlds", "A-filled"],
             outside=OUT, max_paths=(400000, 4000000), wall_s=(300, 3000)),
+    Harness("H13e", h13e, quick=dict(U=3), thorough=dict(U=4), pattern="P4 relational at loop level + P5 (exception inside a transaction block)",
+            requires=["worlds", "exception-in-transaction-block"], outside=OUT, selfcheck=False),
     Harness("H13d", h13d, quick=dict(U=3), thorough=dict(U=4), pattern="P3 with symbolic time", requires=["run", "executed"], outside=OUT, selfcheck=False),
     Harness("H13c", h13c, pattern="exhaustive choice product (structural)", requires=["separate", "may-share"], outside=OUT, selfcheck=False),
     Harness("H13b", h13b, quick=dict(U=2), thorough=dict(U=3), pattern="P5 fault schedule as a variable", requires=["injected"], outside=OUT, selfcheck=False),
